@@ -31,8 +31,8 @@ import (
 func init() {
 	Register(&Prop{
 		ID:   "C28",
-		Expl: "Decides (R1) in SyncLogic.MergeCapabilities every return of the stored capability is dominated by the strict test remote.version < local.version (operands resolved through the getters to the version fields of the two parameters) or by remote == nil, every return of the received capability by the complementary edge or local == nil; in storeCapabilityMessage the stored capability is argument 1 and the parsed message argument 2, the merge result is what UpdateCapability receives and every nil-error return after the update is dominated by the success edge of SavePeerState on the same peer. (R2) by symbolic evaluation of toPeer(peerToRecord(p)) and ToCapability(SnapshotFromCapability(c)): every leaf field of Peer / PeerCapability (except observedAt) of the reloaded value is computed from the same leaf of the original and from no other leaf; peerRecord and PeerCapabilitySnapshot have exported fields with pairwise distinct JSON names of JSON-representable types; the two asset symbol tables are mutually inverse and normalised. (R3) every bbolt delete in package peersync is dominated (in its function or in all its callers) by IsExpired(timeout)==true on the peer materialised from the cursor value and by shouldKeepPeer(key, keep)==false; shouldKeepPeer answers with the membership of the key in the keep set; the only production caller of the cleanup passes the connected-peer set and is dominated by the success edge of listing the peers; connectedPeers never returns a nil error when listing failed, and every production implementation behind Lightning.ListPeers (followed through in-module interface calls to the call the peer list originates from) returns a nil error only on the success edge of that call — a function without an error result on that chain cannot report the failure; the keep-nothing wrapper CleanupExpired and RemovePeerState have no production callers. (R4) every capability send whose peer comes from the connected-peer listing is dominated by allowRequest(thatPeer, now, force)==true; under the assumption seen && !force && now-last < requestInterval allowRequest can only return false, and every true return first records now for the peer. (R5) HasCompatiblePeer returns only false or the value-equality of the stored capability's version with PeerSync.version, whose only production writer stores NewVersion(PEERSWAP_PROTOCOL_VERSION).",
-		NotD: "Everything that depends on clocks, message order and connectivity: that polls arrive, expiry timing, the pruning of request times on reconnect, pacing of polls to known peers (ShouldPoll) and the unthrottled RequestPoll/initial sync path; value-level identity of the converters beyond leaf-to-leaf dependence (range check of rates, omitempty: an all-zero capability reloads as nil, an empty status reloads as unknown; observedAt is replaced by LastSeen); bbolt semantics (including Put during cursor iteration); the suspicious-peer early exits.",
+		Expl: "Decides (R1) in SyncLogic.MergeCapabilities every return of the stored capability is dominated by the strict test remote.version < local.version (operands resolved through the getters to the version fields of the two parameters) or by remote == nil, every return of the received capability by the complementary edge or local == nil; in storeCapabilityMessage the stored capability is argument 1 and the parsed message argument 2, the merge result is what UpdateCapability receives and every nil-error return after the update is dominated by the success edge of SavePeerState on the same peer. (R2) by symbolic evaluation of toPeer(peerToRecord(p)) and ToCapability(SnapshotFromCapability(c)): every leaf field of Peer / PeerCapability (except observedAt) of the reloaded value is computed from the same leaf of the original and from no other leaf; peerRecord and PeerCapabilitySnapshot have exported fields with pairwise distinct JSON names of JSON-representable types; the two asset symbol tables are mutually inverse and normalised. (R3) every bbolt delete in package peersync is dominated (in its function or in all its callers) by IsExpired(timeout)==true on the peer materialised from the cursor value and by shouldKeepPeer(key, keep)==false; shouldKeepPeer answers with the membership of the key in the keep set; the only production caller of the cleanup passes the connected-peer set and is dominated by the success edge of listing the peers; connectedPeers never returns a nil error when listing failed, and every production implementation behind Lightning.ListPeers (followed through in-module interface calls to the call the peer list originates from) returns a nil error only on the success edge of that call — a function without an error result on that chain cannot report the failure; the keep-nothing wrapper CleanupExpired and RemovePeerState have no production callers. (R4) every capability send whose peer comes from the connected-peer listing is dominated by allowRequest(thatPeer, now, force)==true; under the assumption seen && !force && now-last < requestInterval allowRequest can only return false, and every true return first records now for the peer. (R5) HasCompatiblePeer returns only false or the value-equality of the stored capability's version with PeerSync.version, whose only production writer stores NewVersion(PEERSWAP_PROTOCOL_VERSION). (R6) over the VTA call graph: every call edge on every chain from a production function that receives from a channel of CustomMessage (the subscription loop) to Store.SavePeerState is a synchronous call — a `go` statement on such a chain hands messages of one peer to concurrent goroutines, so the read-merge-save of an older poll can complete after that of a newer one.",
+		NotD: "Everything that depends on clocks, message order on the wire and connectivity; whether the other goroutine that rewrites peer records (the poll loop: GetAllPeerStates … SavePeerState per peer without a lock shared with the message handler) can overwrite a capability stored in between (reported as a note by R6); that polls arrive, expiry timing, the pruning of request times on reconnect, pacing of polls to known peers (ShouldPoll) and the unthrottled RequestPoll/initial sync path; value-level identity of the converters beyond leaf-to-leaf dependence (range check of rates, omitempty: an all-zero capability reloads as nil, an empty status reloads as unknown; observedAt is replaced by LastSeen); bbolt semantics (including Put during cursor iteration); the suspicious-peer early exits.",
 		Run:  runC28,
 	})
 }
@@ -43,12 +43,14 @@ func runC28(c *an.Check) {
 	c.Rule("C28.R3", "deletion requires expired && !connected; cleanup is only run with the connected set and not when listing peers failed")
 	c.Rule("C28.R4", "requests to unknown connected peers are dominated by allowRequest; allowRequest refuses within the interval unless forced and records the attempt")
 	c.Rule("C28.R5", "HasCompatiblePeer is equality of the stored version with PEERSWAP_PROTOCOL_VERSION")
+	c.Rule("C28.R6", "peer messages are handled synchronously in arrival order: no `go` statement on any call chain from the loop that receives CustomMessages to Store.SavePeerState")
 	e := &c28Env{c: c, w: c.W}
 	e.r1()
 	e.r2()
 	e.r3()
 	e.r4()
 	e.r5()
+	e.r6()
 }
 
 type c28Env struct {
@@ -2774,4 +2776,144 @@ func (e *c28Env) r5() {
 		}
 	}
 	c.AtLeast("C28.R5", "writers of PeerSync.version", nW, 1)
+}
+
+// =====================================================================================
+// R6
+// =====================================================================================
+
+func (e *c28Env) r6() {
+	c, w := e.c, e.w
+	save := w.Func("peersync", "(*Store).SavePeerState")
+	if save == nil {
+		c.Anchor("function peersync.(*Store).SavePeerState does not resolve")
+		return
+	}
+	isMsgChan := func(t types.Type) bool {
+		ch, ok := t.Underlying().(*types.Chan)
+		if !ok {
+			return false
+		}
+		n := an.NamedOf(ch.Elem())
+		return n != nil && n.Obj().Name() == "CustomMessage" && n.Obj().Pkg() != nil && strings.HasSuffix(n.Obj().Pkg().Path(), "/peersync")
+	}
+	// the subscription loops: production functions that receive CustomMessages from a channel
+	var loops []*ssa.Function
+	for _, fn := range prodFuncs(w) {
+		if w.FnRel(fn) != "peersync" {
+			continue
+		}
+		recv := false
+		for _, b := range fn.Blocks {
+			for _, in := range b.Instrs {
+				switch x := in.(type) {
+				case *ssa.UnOp:
+					if x.Op == token.ARROW && isMsgChan(x.X.Type()) {
+						recv = true
+					}
+				case *ssa.Select:
+					for _, st := range x.States {
+						if st.Dir == types.RecvOnly && isMsgChan(st.Chan.Type()) {
+							recv = true
+						}
+					}
+				}
+			}
+		}
+		if recv {
+			loops = append(loops, fn)
+		}
+	}
+	cg := w.CG()
+	prod := func(f *ssa.Function) bool {
+		return f != nil && w.InModule(f) && !an.IsTestSupport(w.FnRel(f))
+	}
+	// functions from which the store write is reachable
+	reach := map[*ssa.Function]bool{save: true}
+	work := []*ssa.Function{save}
+	for len(work) > 0 {
+		f := work[len(work)-1]
+		work = work[:len(work)-1]
+		n := cg.Nodes[f]
+		if n == nil {
+			continue
+		}
+		for _, in := range n.In {
+			cf := in.Caller.Func
+			if prod(cf) && !reach[cf] {
+				reach[cf] = true
+				work = append(work, cf)
+			}
+		}
+	}
+	nChains := 0
+	for _, loop := range loops {
+		if !reach[loop] {
+			continue
+		}
+		nChains++
+		seen := map[*ssa.Function]bool{loop: true}
+		stack := []*ssa.Function{loop}
+		for len(stack) > 0 {
+			f := stack[len(stack)-1]
+			stack = stack[:len(stack)-1]
+			n := cg.Nodes[f]
+			if n == nil {
+				continue
+			}
+			for _, out := range n.Out {
+				cal := out.Callee.Func
+				if !reach[cal] || out.Site == nil {
+					continue
+				}
+				cons := w.FuncName(loop) + " ... " + w.FuncName(f) + " -> " + w.FuncName(cal)
+				if _, isGo := out.Site.(*ssa.Go); isGo {
+					c.Bad("C28.R6", cons, w.Pos(out.Site.Pos()), "a `go` statement on the way from the message loop to SavePeerState: messages of one peer are handled concurrently, so the read-merge-save of an older poll can finish after that of a newer one (the stored capability is not the most recent poll) and two racing merges can bypass the lower-version guard")
+				} else {
+					c.OK("C28.R6", cons, w.Pos(out.Site.Pos()), "synchronous call on the chain from the message loop to the store write")
+				}
+				if cal != save && !seen[cal] {
+					seen[cal] = true
+					stack = append(stack, cal)
+				}
+			}
+		}
+		// one consumer: the loop itself must not be started more than once per subscription
+		starts := 0
+		if n := cg.Nodes[loop]; n != nil {
+			for _, in := range n.In {
+				if prod(in.Caller.Func) && in.Site != nil {
+					starts++
+				}
+			}
+		}
+		if starts != 1 {
+			c.Note("C28.R6", w.FuncName(loop)+" consumers", w.Pos(loop.Pos()), fmt.Sprintf("the message loop has %d production start sites; more than one consumer of a subscription would also lose the arrival order", starts))
+		}
+	}
+	c.AtLeast("C28.R6", "chains from a CustomMessage receive loop to Store.SavePeerState", nChains, 1)
+
+	// other goroutines that rewrite peer records (not decided: lost update against the handler)
+	var roots []string
+	for _, fn := range prodFuncs(w) {
+		for _, ci := range an.Calls(fn) {
+			g, isGo := ci.(*ssa.Go)
+			if !isGo {
+				continue
+			}
+			n := cg.Nodes[fn]
+			if n == nil {
+				continue
+			}
+			for _, out := range n.Out {
+				if out.Site == ssa.CallInstruction(g) && reach[out.Callee.Func] {
+					roots = append(roots, w.FuncName(out.Callee.Func)+" (started at "+w.Pos(g.Pos())+")")
+				}
+			}
+		}
+	}
+	sort.Strings(roots)
+	if len(roots) > 1 {
+		c.Note("C28.R6", "goroutines that write peer records", w.Pos(save.Pos()), "SavePeerState is reached from "+strings.Join(roots, "; ")+" and no lock spans a read…save sequence: a goroutine that loaded a peer record earlier (the poll loop loads all records, then sends and saves them one by one) writes its stale copy over a capability the message handler stored in between — not decided by this rule")
+	}
 }
